@@ -52,6 +52,7 @@ class Ctx:
     def __init__(self):
         self.slots = {}
         self.slot_spec = {}
+        self.held = []
 
 
 def _pair_state(p):
@@ -90,10 +91,17 @@ def run_op(op, ctx=None):
             for e in op["pairs"]:
                 e2 = [dec(x) for x in e]
                 pairs.append(tuple(e2) if op.get("as", "tuple") == "tuple" else e2)
-            if op.get("container") == "tuple":
+            cont = op.get("container")
+            if cont == "tuple":
                 pairs = tuple(pairs)
+            elif cont == "iter":
+                pairs = iter(pairs)  # a one-shot iterator (zip(texts, bgs), map(...), a generator)
+            elif cont == "gen":
+                pairs = (x for x in list(pairs))
             r = make_readable_bulk(pairs, **_kw(op, (("mode", "mode"), ("vr", "very_readable"), ("save", "save_report"))))
             out["ret"] = enc(r)
+            if ctx is not None and op.get("hold"):
+                ctx.held.append((r, out["ret"]))  # the caller keeps the returned object: it must not change later
         elif kind == "newpair":
             p = ColorPair(dec(op["t"]), dec(op["b"]), op.get("large", False))
             ctx.slots[op["slot"]] = p
@@ -170,7 +178,8 @@ class Effects:
     """Record everything an operation does to the outside: stream bytes, file-system events
     (audit hook), sandbox snapshot diff.  cwd is <root>/cwd."""
 
-    def __init__(self, root, tty=False, no_color=False, plan=None, cwd_rel="cwd", extra_env=None, tmpdir_abs=None):
+    def __init__(self, root, tty=False, no_color=False, plan=None, cwd_rel="cwd", extra_env=None, tmpdir_abs=None, stdout_kind="rec"):
+        self.stdout_kind = stdout_kind
         self.cwd_rel = cwd_rel
         self.extra_env = extra_env
         self.tmpdir_abs = tmpdir_abs
@@ -201,6 +210,8 @@ class Effects:
             self.tmp_before = seams.snapshot(self.tmpdir_abs)
         self.before = seams.snapshot(root)
         self.out, self.err = seams.Rec(self.tty, "<stdout>"), seams.Rec(self.tty, "<stderr>")
+        if self.stdout_kind == "minimal":
+            self.out = seams.MinimalStream()
         self.saved = (sys.stdout, sys.stderr, V.__dict__.get("open"), H.__dict__.get("open"))
         sys.stdout, sys.stderr = self.out, self.err
         self.io = seams.SimIOPlan(root) if self.plan is None else self.plan
